@@ -431,12 +431,12 @@ def run_paths(registry: Registry, c: Contract, label: str, setup: Callable, max_
         if npaths > max_paths:
             unsupported.append(f'path limit {max_paths} exceeded')
             break
-        path = Path(prefix, worklist)
+        path = Path(prefix, worklist, feas_timeout_ms=getattr(c, 'feas_timeout_ms', 2000))
         I = Interp(path, registry)
         I.load_class_hierarchy(c.module)
         I.label = label
         I.expr_overrides = dict(c.overrides)
-        I.global_overrides = dict(c.globals)
+        I.global_overrides = c.globals      # the same dict: setup functions may install per-path models
         registry.active = c
         h = Harness(I)
         try:
@@ -670,6 +670,66 @@ def frame_obligations(I: Interp, c: Contract, vals: dict, label: str) -> None:
 
 
 def verify_contract(registry: Registry, c: Contract, timeout_ms: int = 10000, jobs: int = 0) -> FunctionReport:
+    return verify_contracts(registry, [c], timeout_ms, jobs)[0]
+
+
+def verify_contracts(registry: Registry, contracts: list, timeout_ms: int = 10000, jobs: int = 0) -> list:
+    """Explore the paths of every contract first, then discharge all obligations in one parallel batch."""
+    global _COLLECT_CTX
+    if len(contracts) >= 4:
+        # path exploration is single-threaded and, for string-heavy code, dominated by feasibility queries:
+        # explore the contracts in parallel worker processes; obligations come back as SMT-LIB text
+        import multiprocessing as mp
+        _COLLECT_CTX = (registry, contracts)
+        with mp.get_context('fork').Pool(min(16, len(contracts))) as pool:
+            collected = pool.map(_collect_job, range(len(contracts)), chunksize=1)
+        for col in collected:
+            m = extract.load(col['module'])
+            col['mod'], col['fnode'] = m, m.find(col['qualname'])
+    else:
+        collected = [_serialise(_collect(registry, c)) for c in contracts]
+    all_obs = [o for col in collected for o in col['obs']]
+    results = smt.discharge(all_obs, timeout_ms=timeout_ms, jobs=jobs)
+    reports = []
+    k = 0
+    for c, col in zip(contracts, collected):
+        n = len(col['obs'])
+        merged = merge_results(results[k:k + n])
+        k += n
+        mod, fnode = col['mod'], col['fnode']
+        reports.append(FunctionReport(c.name, c.target, c.prop, mod.path, mod.span(fnode), mod.sha1(fnode),
+                                      col['npaths'], merged, col['unsupported'], sorted(col['inlined']),
+                                      sorted(col['summaries']), col['wall'] + sum(r.time_s for r in merged),
+                                      col['feas_unknown']))
+    return reports
+
+
+_COLLECT_CTX = None
+
+
+def _collect_job(i: int) -> dict:
+    registry, contracts = _COLLECT_CTX
+    col = _serialise(_collect(registry, contracts[i]))
+    col.pop('mod')
+    col.pop('fnode')
+    return col
+
+
+def _serialise(col: dict) -> dict:
+    """Replace z3 expressions by SMT-LIB text so that a collection can cross a process boundary."""
+    col['obs'] = [smt.TextObligation(o.name, o.kind, o.lineno, o.note, o.path,
+                                     smt.to_smt2(o.pc, None, negate=False) if o.kind == 'cover'
+                                     else smt.to_smt2(o.pc, o.goal)) for o in col['obs']]
+    col['module'], col['qualname'] = col['mod'].name, _qual(col)
+    col['inlined'], col['summaries'] = sorted(col['inlined']), sorted(col['summaries'])
+    return col
+
+
+def _qual(col):
+    return col['qualname'] if 'qualname' in col else col['_qualname']
+
+
+def _collect(registry: Registry, c: Contract) -> dict:
     t0 = time.time()
     all_obs = []
     unsupported: list = []
@@ -696,12 +756,9 @@ def verify_contract(registry: Registry, c: Contract, timeout_ms: int = 10000, jo
         if not ends and not getattr(c, 'may_not_return', False):
             all_obs.append(Obligation(f'{lbl}.return_reachable', [_z3.BoolVal(False)], _z3.BoolVal(False), 0,
                                       kind='cover'))
-    results = smt.discharge(all_obs, timeout_ms=timeout_ms, jobs=jobs)
-    # covers: one satisfiable instance per name is enough; asserts: every instance must be proved
-    merged = merge_results(results)
-    return FunctionReport(c.name, c.target, c.prop, mod.path, mod.span(fnode), mod.sha1(fnode), npaths, merged,
-                          unsupported, sorted(meta_all['inlined']), sorted(meta_all['summaries']),
-                          time.time() - t0, meta_all['feas_unknown'])
+    return dict(obs=all_obs, mod=mod, fnode=fnode, _qualname=c.qualname, npaths=npaths, unsupported=unsupported,
+                inlined=meta_all['inlined'], summaries=meta_all['summaries'], feas_unknown=meta_all['feas_unknown'],
+                wall=time.time() - t0)
 
 
 def merge_results(results: list) -> list:
